@@ -62,6 +62,10 @@ func c28Corpus() []c28Prog {
 		{"pubkey", "script", 0, "", `access(all) fun main(): Int { let pk = ` + c28PK + `; return pk.publicKey.length }`},
 		{"move", "tx", 2, "", `import D from 0x1  transaction { prepare(a: ` + c28AuthAll + `, b: ` + c28AuthAll + `) { a.storage.save(<- D.mk(1), to: /storage/m1); let r <- a.storage.load<@D.R>(from: /storage/m1)!; b.storage.save(<- r, to: /storage/m1) } }`},
 		{"import-script", "script", 0, "", `import D from 0x1  access(all) fun main(): Int { return D.n }`},
+		// first storage of two / three accounts in one execution: AccountStorage.commit writes several account
+		// storage map registers (its multi-account path); every register write of the commit is a crash point
+		{"multi-account", "tx", 3, "", `transaction { prepare(a: ` + c28AuthAll + `, b: ` + c28AuthAll + `, c: ` + c28AuthAll + `) { b.storage.save(1, to: /storage/x); c.storage.save([2, 3], to: /storage/x); a.storage.save(3, to: /storage/x3) } }`},
+		{"multi-account-4", "tx", 4, "", `transaction { prepare(a: ` + c28AuthAll + `, b: ` + c28AuthAll + `, c: ` + c28AuthAll + `, d: ` + c28AuthAll + `) { d.storage.save("z", to: /storage/x); b.storage.save(1, to: /storage/x); c.storage.save([2, 3], to: /storage/x) } }`},
 	}
 }
 
@@ -138,7 +142,7 @@ func c28Gen(c *hx.Ctx) {
 				n := h.Counts[m.Name]
 				// every call index for rare callbacks; first, second, middle and last for frequent ones (all in thorough)
 				idx := map[int]bool{}
-				if n <= 6 || c.Thorough() {
+				if n <= 6 || c.Thorough() || (m.Name == "SetValue" && strings.HasPrefix(p.name, "multi-account")) {
 					for i := 0; i < n && i < 40; i++ {
 						idx[i] = true
 					}
